@@ -559,6 +559,22 @@ fn families(thorough: bool) -> Vec<(&'static str, String, Vec<u8>)> {
             }
         }
     }
+    // W arrays with more than three elements (only the first three are meaningful)
+    for w in ["[0 0 0 1]", "[0 0 0 0 8]", "[0 0 0 8 8 8]", "[1 2 1 0]", "[1 2 1 255]", "[0 0 0 -1]", "[0 0 0 (s)]", "[0 0]", "[]", "[1 2 1 9223372036854775807]"] {
+        for ix in ["[0 3]", "[0 1048576]", "[0 300000000]", "[0 4611686018427387904]"] {
+            for size in ["3", "300000000", "4294967295"] {
+                v.push(("xrefstm", format!("W{} Index{} Size {}", w, ix, size), dict_line(&format!("<</Type/XRef/Size {}/W{}/Index{}>>", size, w, ix), &data)));
+                let mut f = b"%PDF-1.5\n".to_vec();
+                let off = f.len();
+                f.extend_from_slice(format!("1 0 obj\n<</Type/XRef/Size {}/W{}/Index{}/Root 1 0 R/Length 16>>stream\n0123456789abcdef\nendstream\nendobj\nstartxref\n{}\n%%EOF", size, w, ix, off).as_bytes());
+                v.push(("load", format!("xref stream W{} Index{} Size {}", w, ix, size), f));
+            }
+        }
+        // no Index at all: the count comes from Size
+        for size in ["3", "300000000", "4294967295", "-5"] {
+            v.push(("xrefstm", format!("W{} no Index Size {}", w, size), dict_line(&format!("<</Type/XRef/Size {}/W{}>>", size, w), &data)));
+        }
+    }
     // object streams: N / First extremes, non-numeric index blocks
     for n in ["0", "1", "-1", "3", "1000000", "4611686018427387904", "9223372036854775807"] {
         for first in ["0", "1", "4", "15", "16", "100", "-1", "9223372036854775807"] {
